@@ -22,9 +22,14 @@ F_G = "forall_obj(CircuitGraphBranch, lambda g: fresh(g) or seq_is(g.get_node_it
 F_C = "forall_obj(CircuitCompositeOperation, lambda c: fresh(c) or c._circuit_graph is old(c._circuit_graph))"
 F_R = "forall_obj(ICircuitOperation, lambda o: fresh(o) or o.relation_link is old(o.relation_link))"
 F_S = "forall_obj(CircuitCompositeOperation, lambda c: fresh(c) or c.repetition_strategy is old(c.repetition_strategy))"
+# entries that a passed lookup already holds are kept, except for keys inside the copied operation itself (they are (re)written);
+# stated for TREES (ghost relations of the apply_modifiers section below; A-dict-identity: keys are operation OBJECTS)
+KEPT = ("forall_obj(ICircuitOperation, lambda k: not old(dict_has(relation_transfer_lookup, k)) or self.inside(k) or "
+        "(dict_has(relation_transfer_lookup, k) and dict_get(relation_transfer_lookup, k) is old(dict_get(relation_transfer_lookup, k))))")
+KEEP_L = f"relation_transfer_lookup is None or not self.tree_ok or {KEPT}"
 contract("ICircuitOperation.copy", params=dict(self=OP, relation_transfer_lookup=OPT(DICT(OP, OP))), returns=OP, verify=False, fresh_result=True,
          modifies=REL_FIELDS + ["graph", "dict", "CircuitCompositeOperation._circuit_graph"],
-         ensures=["fresh(result)", "same_class(result, self)", F_G, F_C, F_R])
+         ensures=["fresh(result)", "same_class(result, self)", F_G, F_C, F_R, KEEP_L])
 COPY_ENS = ["typeis(result, CircuitCompositeOperation)", "fresh(result)", "fresh(result._circuit_graph)",
             f"len({NEWG}) == len(old({NODES}))",
             f"forall({NEWG}, lambda n: fresh(n.operation))",
@@ -35,6 +40,11 @@ contract("CircuitCompositeOperation.copy", params=dict(self=CCO, relation_transf
          fresh_result=True, inst_depth=2, split=4, heap_closure=True,
          modifies=REL_FIELDS + ["graph", "dict", "CircuitCompositeOperation._circuit_graph"],
          ensures=COPY_ENS + [
+             KEEP_L,
+             # a lookup passed by the caller afterwards maps every first-level operation of the original to an operation of the copy
+             # (this is what re-points relations BETWEEN copied operations: RelationLink.copy reads it, C05)
+             f"relation_transfer_lookup is None or not self.tree_ok or forall(old({NODES}), lambda n: dict_has(relation_transfer_lookup, n.operation) and "
+             f"exists({NEWG}, lambda m: m.operation is dict_get(relation_transfer_lookup, n.operation)))",
              # (consequence used by repeat: the copy's operations occur in no graph that existed before)
              f"forall({NEWG}, lambda m: forall_obj(CircuitGraphBranch, lambda g: fresh(g) or "
              "forall(g.get_node_iterator(), lambda n: n.operation is not m.operation)))"],
@@ -46,7 +56,10 @@ contract("CircuitCompositeOperation.copy", params=dict(self=CCO, relation_transf
                     f"forall({NEWG}, lambda n: fresh(n.operation))",
                     f"forall({NEWG}, lambda n: forall({NEWG}, lambda m: n is m or n.operation is not m.operation))",
                     "result.repetition_strategy is self.repetition_strategy",
-                    F_G, F_C, F_R]})
+                    F_G, F_C, F_R,
+                    f"not self.tree_ok or {KEPT}",
+                    f"not self.tree_ok or forall_int(0, _i, lambda j: dict_has(relation_transfer_lookup, _xs[j].operation) and "
+                    f"exists({NEWG}, lambda m: m.operation is dict_get(relation_transfer_lookup, _xs[j].operation)))"]})
 
 # one level below extend: add() is add_to_graph on this composite's own graph.  Verified against add_to_graph's contract (C01);
 # restated here over the composite so that extend's loop sees one small contract instead of add_to_graph's case analysis.
